@@ -257,7 +257,7 @@ macro_rules! impl_traits {
             fn draw<R: Rng>(&self, rng: &mut R) -> $kind {
                 let u = rand::distributions::Open01;
                 let tau = 1.0 + 4.0_f64.mul_add(self.k * self.k, 1.0).sqrt();
-                let rho = (tau * (2.0 * tau).sqrt()) / (2.0 * self.k);
+                let rho = (tau - (2.0 * tau).sqrt()) / (2.0 * self.k);
                 let r = rho.mul_add(rho, 1.0) / (2.0 * rho);
 
                 loop {
